@@ -304,6 +304,11 @@ func (wtr *JSONWtr) writeValue(p *node.Path, v val.Value) error {
 			if _, err := wtr._out.WriteString(strconv.FormatFloat(f, 'f', -1, 64)); err != nil {
 				return err
 			}
+		case val.FmtEmpty:
+			// RFC 7951 section 6.9: a leaf of type empty is encoded as [null]
+			if _, err := wtr._out.WriteString("[null]"); err != nil {
+				return err
+			}
 		case val.FmtAny:
 			var data []byte
 			var err error
